@@ -19,6 +19,7 @@ open VaxisModel.Spec.Editor (Ed Op Callback)
 open VaxisModel.Spec.Uax29 (clUax)
 
 structure St where
+  nocb : Bool := false             -- the TextField has no callbacks installed
   kind : String := ""
   widths : Array Nat := #[]
   words : Array Bool := #[]
@@ -80,9 +81,9 @@ def apiI (cl : List Nat → List (List Nat)) (tf : TextFieldCl.TF Nat) (f : Stri
   (EdRun.tfApi EdGen.genTf cl f args tf).map (·.1)
 
 /-- `HandleEvent` through the translated bodies. -/
-def keyI (cl : List Nat → List (List Nat)) (tf : TextFieldCl.TF Nat) (ev : TextField.KeyEv Nat) :
+def keyI (nocb : Bool) (cl : List Nat → List (List Nat)) (tf : TextFieldCl.TF Nat) (ev : TextField.KeyEv Nat) :
     Option (TextFieldCl.TF Nat × List (TextFieldCl.Call Nat)) :=
-  (EdRun.tfHandleKey EdGen.genTf cl tf ev).map fun (t, log) =>
+  (if nocb then EdRun.tfHandleKeyNoCb EdGen.genTf cl tf ev else EdRun.tfHandleKey EdGen.genTf cl tf ev).map fun (t, log) =>
     (t, log.map fun (k, v) => if k = "submit" then TextFieldCl.Call.submit v else TextFieldCl.Call.change v)
 
 /-- textinput's `Update` / `SetContent` through the translated bodies, over merging graphemes … -/
@@ -143,9 +144,9 @@ def stepTF (s : St) (op : List String) (impl : String) : St × String :=
       let ev : TextField.KeyEv Nat :=
         { release := rel == "1", text := t, home := bit bits 0, toEnd := bit bits 1, right := bit bits 2,
           left := bit bits 3, delRight := bit bits 4, delLeft := bit bits 5, kill := bit bits 6, enter := bit bits 7 }
-      let ecb := VaxisModel.Spec.Editor.callbacks isW s.ed sop
+      let ecb := if s.nocb then [] else VaxisModel.Spec.Editor.callbacks isW s.ed sop
       let ed' := VaxisModel.Spec.Editor.apply isW s.ed sop
-      match keyI cl1 (toCl s.tf) ev with
+      match keyI s.nocb cl1 (toCl s.tf) ev with
       | some (tfc', cbsC) =>
         let tf' := ofCl tfc'
         let cbs : List (TextField.Call Nat) := cbsC.map fun c => match c with | .change v => .change v | .submit v => .submit v
@@ -155,6 +156,9 @@ def stepTF (s : St) (op : List String) (impl : String) : St × String :=
         let s' := { s with tf := (TextField.handleKey s.tf ev).1, ed := ed' }
         (s', s!"{noBody}\t{impl}\t{verdictEq "textfield" (dropN impl) (tfExpect s' ed' ecb)}")
     | _, _ => (s, "bad-op\tbad-op\tbad-op")
+  | ["nocb"] =>
+    let s' := { s with nocb := true }
+    (s', s!"{tfCanon s' s'.tf []}\t{impl}\t{verdictEq "textfield" (dropN impl) (tfExpect s' s'.ed [])}")
   | ["draw", w, h] =>
     match w.toNat?, h.toNat? with
     | some w, some h =>
@@ -372,9 +376,9 @@ def stepTFC (s : St) (op : List String) (impl : String) : St × String :=
         let ev : TextField.KeyEv Nat :=
           { release := rel == "1", text := t, home := bit bits 0, toEnd := bit bits 1, right := bit bits 2,
             left := bit bits 3, delRight := bit bits 4, delLeft := bit bits 5, kill := bit bits 6, enter := bit bits 7 }
-        let ecb := VaxisModel.Spec.Editor.callbacksC cl isW s.edc sop
+        let ecb := if s.nocb then [] else VaxisModel.Spec.Editor.callbacksC cl isW s.edc sop
         let ed' := VaxisModel.Spec.Editor.applyC cl isW s.edc sop
-        match keyI cl s.tfc ev with
+        match keyI s.nocb cl s.tfc ev with
         | some (tf', cbs) =>
           let s' := { s with tfc := tf', edc := ed' }
           (s', s!"{tfcCanon s' tf' cbs}\t{impl}\t{verdictEq "textfield" (dropN impl) (tfcExpect s' ed' ecb)}")
@@ -392,6 +396,9 @@ def stepTFC (s : St) (op : List String) (impl : String) : St × String :=
       let v := if impl.endsWith " laws=ok" then "ok" else s!"FAIL segmentation law violated by uniseg on this text: {impl}"
       (s, s!"seg={showClusters (cl t)} laws={lw}\t{impl}\t{v}")
     | none => (s, "bad-op\tbad-op\tbad-op")
+  | ["nocb"] =>
+    let s' := { s with nocb := true }
+    (s', s!"{tfcCanon s' s'.tfc []}\t{impl}\t{verdictEq "textfield" (dropN impl) (tfcExpect s' s'.edc [])}")
   | ["draw", w, h] =>
     match w.toNat?, h.toNat? with
     | some w, some h =>
